@@ -6,7 +6,7 @@ PROFILES = [('mem', 2), ('evict', 1), ('evictlf', 1), ('ssamem', 2), ('ssald', 1
 
 def run(ctx):
     return syscheck.run(
-        ctx, 'C05', ['C05', 'C05_mvp3', 'C05_mvp4', 'C05_mvp5'], PROFILES, S.VARIANTS[2:], n_quick=45, n_thorough=1500,
+        ctx, 'C05', ['C05', 'C05_mvp3', 'C05_mvp4', 'C05_mvp5', 'C05_mvp4s', 'C05_mvp5s'], PROFILES, S.VARIANTS[2:], n_quick=45, n_thorough=1500,
         assumptions=['loads are observed through destination registers, stores through the final memory image',
                      'theorem: Mem/WriteBack.v (any protocol-following write-back cache is transparent; flush leaves nothing behind); the MMUs are tied to it by this differential'],
         text_rule='memory programs over 64 B .. 8 KB images: first touches at every line offset, working sets larger than every cache (evict profile: 18-40 distinct lines, '
